@@ -35,7 +35,7 @@ use super::endpoints::*;
 use super::nodes::*;
 use super::pipe::Pipe;
 use super::tcpflows::*;
-use crate::checks::c07::{address_variants, boundary_u16s, server_malformed_wires, ss_udp_hostile_datagrams, with_tail_variants};
+use crate::hostile::{address_variants, boundary_u16s, server_malformed_wires, ss_udp_hostile_datagrams, with_tail_variants};
 use crate::checks::Args;
 use crate::gen;
 use crate::peer::{ClientOpts, RefClient, RefServer, ServerOpts};
